@@ -17,6 +17,18 @@ use crate::verif_kani::{chk, finish, harness};
 use crate::{Subscriber, Subscription};
 use std::sync::Arc;
 
+/// S-read-hold (g_glue.rs): a reader that has entered get_state() - it holds the private state
+/// lock and is about to clone.  None when the lock is not free at this point.  (A trait impl,
+/// because this module is private to store_impl.)
+impl rt::ReaderProbe for StoreImpl<St, Act> {
+    fn reader_enters_get_state(&self) -> Option<std::sync::MutexGuard<'static, St>> {
+        match self.state.try_lock() {
+            Ok(g) => Some(unsafe { core::mem::transmute::<std::sync::MutexGuard<'_, St>, std::sync::MutexGuard<'static, St>>(g) }),
+            Err(_) => None,
+        }
+    }
+}
+
 static mut GOT: [(St, u8, u8); 4] = [(ST0, 0, 0); 4];
 static mut N_GOT: usize = 0;
 
